@@ -55,7 +55,9 @@ def main():
             na.append({"property_id": pid, "reason": "no check registered yet: the property-based check for this property is still being built (see DESIGN.md section 5 for its design)"})
     man = {
         "version": 1,
-        "setup_cmd": "/venv/bin/python -c 'import hypothesis' 2>/dev/null || /venv/bin/pip install --no-index --find-links /opt/veriftools/wheels hypothesis",
+        "setup_cmd": "(/venv/bin/python -c 'import hypothesis' 2>/dev/null || /venv/bin/pip install --no-index --find-links /opt/veriftools/wheels hypothesis) && "
+                     "(PYTHONPATH=.deps /venv/bin/python -c 'import atheris' 2>/dev/null || /venv/bin/pip install -q --no-index --find-links /opt/veriftools/wheels --target .deps atheris || "
+                     "echo 'atheris not installed: the two coverage-guided sub-checks of the thorough tier will be skipped')",
         "hooks": {
             "guard": "NPSTRUCTURES_VERIF",
             "enable": "no source hooks exist; checks import /repo's working tree directly (PYTHONPATH=/repo), the guard variable is exported by ./check but nothing in the repository reads it",
@@ -68,7 +70,8 @@ def main():
             "path": "vlib/run.py",
             "serves_properties": [c["property_id"] for c in checks],
             "kind_free_text": "Hypothesis 6.168 strategies and rule-based state machines driven by a process-pool runner "
-                              "(seeded by VERIF_SEED), exhaustive small-scope enumerators, committed regression replay tier",
+                              "(seeded by VERIF_SEED), exhaustive small-scope enumerators, committed regression replay tier; "
+                              "thorough tier of C06/C10 adds atheris (libFuzzer) campaigns through Hypothesis' fuzz_one_input",
         }],
         "checks": checks,
         "not_applicable": na,
